@@ -415,7 +415,7 @@ def _step_cases(tier):
                     add(shape=s, method=m, form=f, aa=a)
             add(shape=s, method=m, form="flux_reduced")
     for m in ("newton", "bregman"):
-        add(method=m, num_iter=3)                                     # the stopping criteria are evaluated: converged and non-converged paths
+        add(method=m, num_iter=3, shape=(2, 2))                       # the stopping criteria are evaluated: converged and non-converged paths (2-D: the distance does change)
         add(method=m, num_iter=3, form="pressure", aa=2)
         for fault in (1, 2):
             add(method=m, form="pressure", fault=fault, shape=(2, 2))     # an inner linear solve fails at iteration fault - 1 (2-D: the flux does change between iterates)
@@ -501,8 +501,20 @@ def c04_step(ctx, shape, method, form, num_iter, aa, fault, start, adaptive, tar
         ctx.ensure(f"mass balance in cell {c}: div(flux) == M (m2 - m1)", eq(bal[c], 0.0))
     ctx.ensure("reported distance == transport cost (l1_dissipation) of exactly the returned flux", eq(dist, l1(flux)))
     ctx.ensure("pressure pinned at the reference cell", eq(sol[nf + w.constrained_cell_flat_index], 0.0))
+    # what the stopping test reads is what the history says it is: the recorded distance increments are the MAGNITUDES of the changes of the recorded distances
+    hist_d, hist_inc = info["convergence_history"]["distance"], info["convergence_history"]["distance_increment"]
+    for k in range(1, min(len(hist_d), len(hist_inc))):
+        ctx.ensure(f"recorded distance increment {k} == |distance[{k}] - distance[{k - 1}]|", eq(hist_inc[k], abs(hist_d[k] - hist_d[k - 1])))
     if num_iter <= 2 or fault >= 0:
         ctx.ensure("not reported converged (fewer than three iterations / an inner step failed)", info["converged"] is False)
+    elif info["converged"]:
+        # the flag MEANS something: on a path that reports convergence the documented criteria hold for the values the run itself recorded -
+        # the last change of the distance is below tol_distance in absolute value (Bregman: relative to the distance), whatever its sign
+        hist = info["convergence_history"]["distance"]
+        tol_d = opts["tol_distance"]
+        change = abs(hist[-1] - hist[-2])
+        ctx.ensure("converged => |last change of the distance| < tol_distance (relative to the distance for Bregman)", (change < tol_d) if method == "newton" else (change / hist[-1] < tol_d))
+        ctx.ensure("converged => the reported distance is the last recorded one", eq(dist, hist[-1]))
     if fault >= 0:
         ctx.ensure("the fault was injected", st["hit"])
 
